@@ -1,7 +1,8 @@
-Require Import Extraction ExtrOcamlBasic.
-Require Import Base.Prelude C09.Generated C09.Model.
+Require Import Extraction ExtrOcamlBasic ExtrOCamlFloats ExtrOCamlInt63.
+Require Import Base.Prelude C09.Generated C09.Arith C09.Model.
 From Coq Require Import QArith.
 Extraction Language OCaml.
-Extraction "model.ml" apply_numpy focal_apply focal_stats mean convolve_2d calc_hotspots hotspots_numpy
-  custom_kernel_ok reducer_of is_one_q u_range u_count u_nnan u_first u_idxsum qred_x
+Extraction "model.ml" q_apply q_reducer q_stats q_mean q_conv q_hot q_hotspots
+  f_apply f_stats f_mean f_conv f_hot f_hotspots f_global
+  custom_kernel_ok u_range u_count u_nnan u_first u_idxsum qred_x
   default_stats_funcs apply_default_func.
